@@ -100,6 +100,8 @@ def make_ops(w, full):
     # bottom above top: refused
     ops.append((b'VIEW PRINT 4 TO 2', ('V', 4, 2)))
     ops.append((b'VIEW PRINT 1 TO 24', ('V', 1, 24)))
+    # rows given as fractions: rounded to the nearest whole number, halves away from zero (2.5 -> 3, 4.5 -> 5, 2.4 -> 2)
+    ops.append((b'VIEW PRINT 2.5 TO 4.5', ('V', 3, 5)))
     if full:
         ops.append((b'WIDTH 40', ('S', 'WIDTH')))
         ops.append((b'WIDTH 80', ('S', 'WIDTH')))
